@@ -214,6 +214,9 @@ def cases_c08(ctx):
             k += 1
             if tier == "thorough" or k % 5 == ctx["seed"] % 5:
                 hs.append(([dict(x) for x in q] + [RUN()], build))
+    # a rename value replaced by one that differs in a single non-ASCII character (same low byte of the code point)
+    for build in (False, True):
+        hs.append(([EDIT("field_serde_rename", 4), RUN(), EDIT("field_serde_rename"), RUN(), EDIT("field_serde_rename", -1), RUN()], build))
     # a field renamed to its own identifier under a container rule that changes that identifier
     for build in (False, True):
         hs.append(([EDIT("struct_rename_all"), RUN(), EDIT("field_serde_rename", 3), RUN(), EDIT("field_serde_rename", -3), RUN()], build))
@@ -255,6 +258,9 @@ def c14_multi(seed, nfiles, mode, build, viz=False, prim=False):
     d = proc.sandbox("c14")
     try:
         proc.write_files(os.path.join(d, "src-tauri"), PRIM_ONLY if prim else projgen.render(p))
+        if seed % 2 == 1:
+            # a `.rs` file that is no Rust file on its own (an `include!` fragment): skipped, never a reason to regenerate
+            proc.write_files(os.path.join(d, "src-tauri"), {"fragments/table.rs": "[\n    (1, \"one\"),\n    (2, \"two\"),\n]\n", "fragments/expr.rs": "1 + 2\n"})
         with open(os.path.join(d, "typegen.json"), "w") as fh:
             json.dump({"project_path": "src-tauri", "output_path": "out", "validation_library": mode, "visualize_deps": viz,
                        "type_mappings": {"PathBuf": "string", "Uuid": "string", "DateTime<Utc>": "string"}}, fh)
@@ -468,6 +474,11 @@ def cases_c17(ctx):
         hs.append(([RUN(), EDIT("param_type"), RUN(fault=0, kind="immcache"), EDIT("param_type", -1), RUN()], build))
         hs.append(([RUN(), EDIT("param_type"), RUN(fault=0, kind="immcache"), RUN()], build))
         hs.append(([RUN(), EDIT("cmd_name"), RUN(forced=True, fault=0, kind="immcache"), EDIT("cmd_name", -1), RUN()], build))
+    # the write probe cannot be created while every binding file is writable (build path: the run fails after the files)
+    for build in (False, True):
+        hs.append(([RUN(), EDIT("param_type"), RUN(leftover=".probe", kind="probe"), EDIT("param_type", -1), RUN()], build))
+        hs.append(([RUN(leftover=".probe", kind="probe"), RUN()], build))
+        hs.append(([RUN(), EDIT("cmd_name"), RUN(leftover=".probe", kind="probe"), RUN(), RUN()], build))
     for build in (False, True):
         for left in ("schemas.ts", "bindings.d.ts", "generated_old.ts"):
             hs.append(([RUN(), EDIT("param_type"), RUN(leftover=left), EDIT("param_type", -1), RUN()], build))
@@ -520,6 +531,7 @@ def c16_case(layout, path_kind, mode, seq, seed, tables=None):
     root = proc.sandbox("c16")
     try:
         proj = os.path.join(root, "proj")
+        os.makedirs(os.path.join(root, "cargo_out_dir"), exist_ok=True)   # what cargo hands a build script as OUT_DIR
         p = projgen.make_project(seed, 2)
         # every third case: a project with commands and no events (no events.ts is ever due)
         proc.write_files(os.path.join(proj, "src-tauri"), PRIM_ONLY if (seed + len(seq)) % 3 == 0 else projgen.render(p))
@@ -560,10 +572,20 @@ def c16_case(layout, path_kind, mode, seq, seed, tables=None):
             elif act == "generate_viz":
                 rc, so, se = proc.run_cli(proj, ["generate", "-p", "src-tauri", "-o", out_arg, "-v", mode, "--visualize-deps", "--force"])
             elif act == "build":
-                rc, so, se = proc.run_build(proj)
+                # as under cargo: OUT_DIR names the build script's scratch directory (outside the output directory)
+                rc, so, se = proc.run_build(proj, extra_env={"OUT_DIR": os.path.join(root, "cargo_out_dir")} if (seed + len(seq)) % 2 == 0 else None)
             elif act == "init":
                 rc, so, se = proc.run_cli(proj, ["init", "-p", "src-tauri", "-g", out_arg, "-v", mode])
                 cfg_touched = os.path.relpath(os.path.join(proj, "src-tauri", "tauri.conf.json"), root)
+            elif act == "edit_index":
+                # the user extends the generated barrel by hand: it now re-exports a module of their own
+                ip = os.path.join(out_abs, "index.ts")
+                if os.path.isfile(ip):
+                    with open(ip, "a") as fh:
+                        fh.write("export * from './helpers';\nexport * from './notes';\n")
+                for n in ("helpers.ts", "notes.ts"):
+                    open(os.path.join(out_abs, n), "w").write("export const mine = '%s';\n" % n)
+                continue
             elif act == "init_other":
                 # a second `init` naming another directory for the bindings: the one configured before is not this run's
                 other = os.path.join(os.path.dirname(out_abs), "second_out")
@@ -741,6 +763,8 @@ def cases_c16(ctx):
         ["need_conf", "init_dot", "generate"],
         ["need_conf", "init", "generate", "init_other", "generate"],
         ["need_conf", "init", "init_other"],
+        ["generate", "edit_index", "touch_source", "generate", "build"],
+        ["build", "edit_index", "touch_source", "build"],
         ["cache_dir", "generate", "build"],
         ["generate", "cache_dir", "touch_source", "generate", "build"],
     ]
@@ -924,7 +948,7 @@ def c19_init_target_case(out_arg, lib):
     root = proc.sandbox("c19t")
     try:
         c19_project(root, "src-tauri", "from_default")
-        docs = {"tauri.conf.json": {"productName": "root-doc", "plugins": {"shell": {"open": True}}},
+        docs = {"tauri.conf.json": {"productName": "Rock, Paper,} Scissors", "bundle": {"resources": ["assets/{img,fonts,}/**", "a,]b"]}, "plugins": {"shell": {"open": True, "scope": "x,}"}}},
                 "src-tauri/tauri.conf.json": {"productName": "project-doc", "identifier": "x"},
                 "conf/tauri.conf.json": {"productName": "conf-doc"}}
         for rel, d in docs.items():
